@@ -2,6 +2,8 @@
 
 package protogen
 
+import "google.golang.org/protobuf/reflect/protoreflect"
+
 // Accessor-name clash detection of the Hybrid/Opaque APIs (C42: generated names within a message
 // are pairwise distinct). The hook inserts "_" between the operation and the field name when an
 // accessor name equals a field name; which accessor names are looked up is the protocol checked
@@ -17,6 +19,19 @@ package protogen
 // @ site for _, method := range methods {...: iff(field.Desc.HasPresence(), len(methods) == 4) && iff(!field.Desc.HasPresence(), len(methods) == 2)
 // @ site for _, method := range methods {...: methods[0] == "Set" && methods[1] == "Get" && imp(len(methods) == 4, methods[2] == "Has" && methods[3] == "Clear")
 func contract_opaqueNewMessageHook(message *Message) {
+	modifiesAll()
+	return
+}
+
+// Field-name conflict resolution in newMessage (the makeNameUnique closure): the set of names
+// already taken only grows - an entry of usedNames that is true is never set back to false - so a
+// name (or getter name) that has been handed out cannot be handed out again later.
+//
+// @ props C42
+// @ mode int
+// @ nopanic
+// @ monotone-map usedNames
+func contract_newMessage(gen *Plugin, f *File, parent *Message, desc protoreflect.MessageDescriptor) (r *Message) {
 	modifiesAll()
 	return
 }
